@@ -162,20 +162,44 @@ func vbC04Case(res *vbC04Res, m map[string]string, payloads [][]byte, py *bufio.
 			}
 			// unmarshalFrame has no caller outside the tests and is not a receive path; not checked
 			framed := vbFramed(all)
-			extra := map[string]string{"zz-added": "1"}
-			nf, err := addHeadersToFrame(framed, extra)
-			if err != nil {
-				chk("addHeadersToFrame"+tag, err.Error())
-			} else {
-				want := map[string]string{"zz-added": "1"}
+			// headers added to a complete frame: a new name, names that are already present (same,
+			// different and empty value), both at once, and nothing
+			extras := []map[string]string{{"zz-added": "1"}, {}}
+			var names []string
+			for k := range m {
+				names = append(names, k)
+			}
+			sort.Strings(names)
+			if len(names) > 0 {
+				first, last := names[0], names[len(names)-1]
+				extras = append(extras,
+					map[string]string{first: m[first]},
+					map[string]string{first: m[first] + "-changed"},
+					map[string]string{last: ""},
+					map[string]string{first: "x", "zz-added": "1"})
+			}
+			for xi, extra := range extras {
+				xtag := fmt.Sprintf("%s/add%d", tag, xi)
+				if xi == 0 {
+					xtag = tag
+				}
+				nf, err := addHeadersToFrame(framed, extra)
+				if err != nil {
+					chk("addHeadersToFrame"+xtag, err.Error())
+					continue
+				}
+				want := map[string]string{}
 				for k, v := range m {
+					want[k] = v
+				}
+				for k, v := range extra {
 					want[k] = v
 				}
 				hh, rest, perr := vfParse(nf[4:])
 				if perr != nil || !vbMapEq(hh, want) || !bytes.Equal(rest, pl) || int(binary.BigEndian.Uint32(nf)) != len(nf)-4 {
-					chk("addHeadersToFrame"+tag, "result frame does not carry merged headers + untouched payload + correct size")
+					chk("addHeadersToFrame"+xtag, fmt.Sprintf("result frame does not carry merged headers + untouched payload + correct size (added %v)", extra))
 				} else {
-					chk("addHeadersToFrame"+tag, "")
+					chk("addHeadersToFrame"+xtag, "")
 				}
 			}
 		}
